@@ -25,13 +25,12 @@ def main():
     ctx = Ctx(a.cid, tier, seed)
     mod = importlib.import_module("harness.props.%s" % a.cid.lower())
     if a.replay:
+        # a replay file records the seed and tier of the run that found the failure and the tag of the failing
+        # case: the same generation is re-run on the CURRENT tree and the failure is looked for again
         data = json.load(open(a.replay))
-        mod.replay(ctx, data)
-        bad = [f for f in ctx.failures]
-        for f in bad:
-            print("VIOLATION property=%s replay=%s" % (a.cid, a.replay))
-            print("  " + f["what"])
-        sys.exit(1 if bad else 0)
+        ctx = Ctx(a.cid, data.get("tier", tier), int(data.get("seed", seed)))
+        mod.run(ctx)
+        sys.exit(ctx.finish_replay(data, a.replay))
     mod.run(ctx)
     sys.exit(ctx.finish())
 
